@@ -200,6 +200,9 @@ def process_includes(lualines, filename=None):
                 inc_game = p8_fmt_cls.from_file(
                     fh, filename=inc_full_path, do_includes=False)
                 for line in lines_for_tab(inc_game.lua.to_lines(), inc_tab):
+                    if not line.endswith(b'\n'):
+                        # (The code of a .p8.png cart may lack a final newline.)
+                        line += b'\n'
                     yield line
         else:
             with open(inc_full_path, 'rb') as fh:
